@@ -87,6 +87,19 @@ def history(rng, plat, nops):
     return Script(ops, tags=(plat, "merge-root" if kind >= 0.75 else "hasher-root"), nontrivial=fills > 0)
 
 
+def boundary_grid(rng, plat, nmax=24):
+    """whole-block reads of n blocks starting j blocks before the 2^32-th block (byte 2^38), every 1 <= j <= n <= nmax, and
+    the same around block 2^32 * 3 and near the last block; exercises every lane / tail position of xof_many at a counter carry"""
+    out = []
+    for base in [1 << 38, 3 << 38]:
+        ops = [f"P plat {plat}", f"H new h {mode_tok(rng)}", f"H upd h {pat(rng.choice([0, 1, 1025, 5000]), rng)}", "H xof h x"]
+        for n in range(1, nmax + 1):
+            for j in range(0, n + 1):
+                ops += [f"X setpos x {base - 64 * j + rng.choice([0, 0, 0, 1, 63])}", f"X fill x {64 * n + rng.choice([0, 0, 1, 63])}"]
+        out.append(Script(ops, tags=(plat, "boundary-grid")))
+    return out
+
+
 def normalize(op, out):
     # `X read` prints "<n> <hex>"; the model prints the bytes only (Read::read always fills the buffer)
     if op.startswith("X read "):
@@ -110,6 +123,8 @@ def stages(tier, seed, witness_search=False):
     if witness_search:
         n *= 4
     scripts = [history(rng, PLATFORMS[i % 5], rng.randrange(1, 26)) for i in range(n)]
+    for p in (PLATFORMS if tier != "quick" else ["avx512", "portable"]):
+        scripts += boundary_grid(rng, p, 24 if tier == "quick" else 40)
     # the Lean driver knows `fill` only; `read` is the same model op
     return [LineStage("readers", scripts, normalize=normalize)]
 
